@@ -1046,6 +1046,29 @@ theorem foldl_update_cells (i : Nat) :
       · exact hne rfl
       · exact hne y (List.mem_cons_self ..) ⟨rfl, rfl⟩
 
+/-! ## level caches and commit -/
+
+theorem readCached_coherent {T : Tree} {db : DB} {vc : VCache} (hc : Coherent db vc) (m i a k : Nat) :
+    readCached T db vc m i a k = readInst T db m i a k := by
+  unfold readCached readInst
+  split
+  · cases hv : vc a i with
+    | none => rfl
+    | some vals =>
+      obtain ⟨r, hr, hk⟩ := hc a i vals hv
+      simp [hr, hk]
+  · rfl
+theorem commitExpire_coherent {db db' : DB} {vc : VCache} (hc : Coherent db vc) (S : Nat → Nat → Bool)
+    (hsame : ∀ a j, S a j = false → db' a j = db a j) : Coherent db' (commitExpire vc S) := by
+  intro a i vals hv
+  unfold commitExpire at hv
+  cases hs : S a i with
+  | true => simp [hs] at hv
+  | false =>
+    simp only [hs] at hv
+    rw [hsame a i hs]
+    exact hc a i vals (by simpa using hv)
+
 /-! ## the example hierarchy used by the non-vacuity examples of Props/C15
 
 `K0(2 cols) ← K1(1) ← {K3(1), K4(0 cols), K5(0 cols, not inheritable)}`, `K0 ← K2(1)`. -/
